@@ -43,6 +43,8 @@ type CaseOut struct {
 	Nontrivial bool
 	Sample     any
 	Stats      map[string]int64
+	Digest     uint64 // hash of every library output of the case (cross-process determinism)
+	TraceHash  uint64 // hash of the schedule (simulator self-test)
 }
 
 func (o *CaseOut) stat(k string, n int64) {
@@ -79,6 +81,8 @@ type ShardResult struct {
 	WallS      float64          `json:"wall_s"`
 	Exhaustive bool             `json:"exhaustive"`
 	Notes      []string         `json:"notes"`
+	// Digests (VERIF_DIGESTS=1): case index -> [output digest, schedule hash]
+	Digests map[string][2]uint64 `json:"digests,omitempty"`
 }
 
 // CaseFunc runs one case decided entirely by the tape.
@@ -93,6 +97,7 @@ type Search struct {
 	distinct map[uint64]struct{}
 	vkeys    map[string]bool
 	status   *os.File
+	digests  bool
 }
 
 // noteStatus records which case is about to run, so that the driver can attribute a
@@ -156,6 +161,12 @@ func (s *Search) try(index uint64, tape *sim.Tape) *CaseOut {
 	s.Res.Cases++
 	for k, v := range out.Stats {
 		s.Res.Stats[k] += v
+	}
+	if s.digests {
+		if s.Res.Digests == nil {
+			s.Res.Digests = map[string][2]uint64{}
+		}
+		s.Res.Digests[strconv.FormatUint(index, 10)] = [2]uint64{out.Digest, out.TraceHash}
 	}
 	if out.Nontrivial {
 		if _, ok := s.distinct[out.Key]; !ok {
@@ -322,6 +333,7 @@ func RunFromEnv(t *testing.T) {
 		return
 	}
 	s := NewSearch(env, def.Stream, def.Case)
+	s.digests = os.Getenv("VERIF_DIGESTS") == "1"
 	def.Search(s)
 	s.Finish()
 	jb, err := json.Marshal(s.Res)
